@@ -121,6 +121,13 @@ RELATIONALS = {
     "LessThan": "<=", "Le": "<=", "StrictLessThan": "<", "Lt": "<", "GreaterThan": ">=", "Ge": ">=",
     "StrictGreaterThan": ">", "Gt": ">", "Eq": "==", "Equality": "==", "Ne": "!=", "Unequality": "!=",
 }
+# external callables whose arguments are canonicalised to keywords (name -> positional order)
+EXTERNAL_SIGNATURES = {
+    "D": ["j", "m", "mp", "alpha", "beta", "gamma"],  # sympy.physics.quantum.spin.Rotation.D
+    "d": ["j", "m", "mp", "beta"],  # Rotation.d
+    "CG": ["j1", "m1", "j2", "m2", "j3", "m3"],
+    "WignerD": ["j", "m", "mp", "alpha", "beta", "gamma"],
+}
 IDENTITY_FUNCS = {"sympify", "_sympify", "S", "nsimplify", "Rational1"}
 SYMPY_CONSTANTS = {"I": "I", "pi": "pi", "oo": "oo"}
 
@@ -528,6 +535,17 @@ class TermEval:
         if name in {"Sum", "Integral", "Product"}:
             args = [self.ev(a, env, fn, depth) for a in node.args]
             return self.app(name, args)
+        if name in EXTERNAL_SIGNATURES:
+            sig = EXTERNAL_SIGNATURES[name]
+            args, kwargs = self._args(node, env, fn, depth)
+            if len(args) > len(sig):
+                raise ExtractionError(f"{name}: too many positional arguments")
+            named = dict(zip(sig, args))
+            for k, v in kwargs.items():
+                if k in named:
+                    raise ExtractionError(f"{name}: argument {k} given twice")
+                named[k] = v
+            return self.app(name, [], named)
         if name in OPAQUE_FUNCS:
             args = [self.ev(a, env, fn, depth) for a in node.args]
             if name == "conjugate" and isinstance(args[0], RF) and "I" not in _all_atoms(args[0]) and False:
